@@ -96,3 +96,6 @@ Proof.
   - intros -> Hd. destruct (Qltb d 500) eqn:E; [apply Qltb_true in E; lra | reflexivity].
   - intros [-> | Hd]; [reflexivity|]. apply Qltb_true in Hd. rewrite Hd, orb_true_r. reflexivity.
 Qed.
+
+Lemma coam_fees_exact k : coam k == coam_pre k + redrill_amortised k + k_annual_fee k - k_taxrelief k.
+Proof. unfold coam. reflexivity. Qed.
